@@ -97,7 +97,7 @@ fn medium_part(tier: Tier) -> Part<'static, LockStep> {
             Tier::Thorough => cfgs(&[(6, 5), (7, 6)], &[None]),
         },
         alphabet: &alpha_medium,
-        depth: tier.pick(4, 5),
+        depth: tier.pick(3, 5),
         seconds: tier.pick(20.0, 1800.0),
         validated: true,
         nontrivial: Some("lockstep_transitions"),
